@@ -7,6 +7,7 @@ import (
 	"reflect"
 	"strconv"
 	"strings"
+	"sync"
 	"time"
 	_ "time/tzdata" // zone data for ScalarCase.TZ, independent of the machine
 	"unsafe"
@@ -68,8 +69,36 @@ type ScalarCase struct {
 	// names with something appended or removed ("ids[]", "k.x") are names of their own.
 	Key string `json:"key,omitempty"`
 	// Near: a further entry / parameter no rule mentions, named like ours but for a suffix or the case
-	Near  string `json:"near,omitempty"`
-	noDup bool
+	Near string `json:"near,omitempty"`
+	// Common (var carrier): the first rules of the list are the shared prefix of that name; the validator is built
+	// as NewVVar().SetRules(prefix...).SetRules(own...) where prefix is ONE slice per process (with spare
+	// capacity) that every such call spreads into the first SetRules (callers keep their common rules in one place)
+	Common string `json:"common,omitempty"`
+	noDup  bool
+}
+
+// commonRules: the shared rule prefixes.
+var commonRules = map[string][]string{"A": {"required|common A"}, "B": {"noeq=77777|common B", "required|common B"}}
+
+var sharedPrefix struct {
+	sync.Mutex
+	m map[string][]string
+}
+
+// sharedPrefixSlice returns the process-wide slice of a prefix (len = its rules, cap = len + 8).
+func sharedPrefixSlice(name string) []string {
+	sharedPrefix.Lock()
+	defer sharedPrefix.Unlock()
+	if sharedPrefix.m == nil {
+		sharedPrefix.m = map[string][]string{}
+	}
+	s, ok := sharedPrefix.m[name]
+	if !ok {
+		s = make([]string, len(commonRules[name]), len(commonRules[name])+8)
+		copy(s, commonRules[name])
+		sharedPrefix.m[name] = s
+	}
+	return s
 }
 
 // k is the name of our map entry / URL parameter.
@@ -276,6 +305,17 @@ func (c *ScalarCase) prepareV(out *reflect.Value) func() error {
 			src = map[string]string{"k": "v"}
 		}
 		rs := append([]string(nil), c.Rules...)
+		if pre := commonRules[c.Common]; c.Common != "" && len(rs) >= len(pre) {
+			shared, own := sharedPrefixSlice(c.Common), rs[len(pre):]
+			fns := append([]string(nil), c.CallFns...)
+			return func() error {
+				vv := valid.NewVVar().SetRules(shared...).SetRules(own...)
+				for _, n := range fns {
+					vv.SetValidFn(n, perCallFn(n))
+				}
+				return vv.Valid(src)
+			}
+		}
 		if len(c.CallFns) > 0 {
 			fns := append([]string(nil), c.CallFns...)
 			return func() error {
